@@ -4,16 +4,70 @@ import os, sys
 sys.path.insert(0, os.path.dirname(os.path.abspath(__file__)))
 from build import *
 
+PLANNERS = {}      # planner objects are kept and reused across the cases of one process
+
+
+def nested(x):
+    return [nested(z) for z in x] if isinstance(x, list) else fl(x)
+
 
 def tens(x, torch):
     """nested lists of 'n/d' strings -> float64 tensor"""
-    def conv(y):
-        return [conv(z) for z in y] if isinstance(y, list) else fl(y)
-    return torch.tensor(conv(x), dtype=torch.float64)
+    return torch.tensor(nested(x), dtype=torch.float64)
 
 
 def mat(t):
     return [[fj(x) for x in row] for row in t.tolist()]
+
+
+def lab(x):
+    return tuple(lab(y) for y in x) if isinstance(x, list) else x
+
+
+def full_reward(case):
+    Rb, nS, nA = case["R"], case["nS"], case["nA"]
+    return [[[fl(Rb[s if len(Rb) > 1 else 0][a if len(Rb[0]) > 1 else 0][n if len(Rb[0][0]) > 1 else 0])
+              for n in range(nS)] for a in range(nA)] for s in range(nS)]
+
+
+def make_mdp(case, R):
+    from msdm.core.mdp.quickmdp import QuickTabularMDP
+    from msdm.core.distributions import DictDistribution
+    nS, nA = case["nS"], case["nA"]
+    sl, al = [lab(x) for x in case["state_labels"]], [lab(x) for x in case["action_labels"]]
+    si, ai = {l: i for i, l in enumerate(sl)}, {l: i for i, l in enumerate(al)}
+    T = nested(case["T"])
+    start = case.get("start")
+    init = DictDistribution({sl[start]: 1.0}) if start is not None else DictDistribution({l: 1.0 / nS for l in sl})
+    g = int(fl(case["gamma"])) if case.get("gamma_style") == "int" else fl(case["gamma"])
+    mdp = QuickTabularMDP(
+        next_state_dist=lambda s, a: DictDistribution({sl[n]: p for n, p in enumerate(T[si[s]][ai[a]]) if p > 0}),
+        reward=lambda s, a, ns: R[si[s]][ai[a]][si[ns]],
+        actions=lambda s: tuple(al),
+        initial_state_dist=init,
+        is_absorbing=lambda s: False,
+        discount_rate=g)
+    return mdp, si, ai
+
+
+def weight(case, torch):
+    import numpy as np
+    lam, style = case["lam"], case["lam_style"]
+    if style == "float":
+        return fl(lam)
+    if style == "npfloat":
+        return np.float64(fl(lam))
+    if style == "int":
+        return int(fl(lam))
+    if style == "tensor1":
+        return torch.tensor([fl(lam)], dtype=torch.float64)
+    return torch.tensor([fl(x) for x in lam], dtype=torch.float64)
+
+
+def tables(res, sl, al):
+    return ([[fj(res.policy[s][a]) for a in al] for s in sl],
+            [[fj(res.actionvaluefunc[s][a]) for a in al] for s in sl],
+            [fj(res.valuefunc[s]) for s in sl])
 
 
 def one(case, pl):
@@ -21,44 +75,70 @@ def one(case, pl):
     from msdm.algorithms.entregpolicyiteration import entropy_regularized_policy_iteration, \
         EntropyRegularizedPolicyIteration
     nS, nA = case["nS"], case["nA"]
-    lam = case["lam"]
     if case["via"] == "planner":
-        # same tensors through the public planner (uniform prior over all actions, scalar weight)
-        T, R = case["T"], case["R"]
-        mcase = {"n": nS, "nA": nA, "actions": [list(range(nA)) for _ in range(nS)],
-                 "trans": {"%d,%d" % (s, a): [[n, T[s][a][n]] for n in range(nS)] for s in range(nS) for a in range(nA)},
-                 "reward": {"%d,%d,%d" % (s, a, n): R[s][a][n] for s in range(nS) for a in range(nA) for n in range(nS)},
-                 "absorbing": [False] * nS, "init": [[s, "1/%d" % nS] for s in range(nS)], "gamma": case["gamma"]}
-        mdp = build_mdp(mcase)
+        R = full_reward(case)
+        mdp, si, ai = make_mdp(case, R)
+        key = (case["iterations"], str(case["lam"]), case["lam_style"], str(case["pi0"]))
+        touched = False
+        if case.get("decoy"):
+            # (a) the MDP's cached views are used before planning, (b) the planner object has already
+            # planned on another MDP with the same labels and different numbers
+            _ = (mdp.state_list, mdp.action_list, mdp.transition_matrix.sum(), mdp.reward_matrix.sum(), mdp.action_matrix.sum())
+            touched = True
         sl, al = list(mdp.state_list), list(mdp.action_list)
-        w = fl(lam) if case["lam_style"] == "float" else torch.tensor([fl(lam)], dtype=torch.float64)
-        res = EntropyRegularizedPolicyIteration(iterations=case["n_iters"], entropy_weight=w).plan_on(mdp)
-        if sl != list(range(nS)) or al != list(range(nA)):
-            return {"error": "Harness: state/action lists %r %r are not the index ranges" % (sl, al)}
+        prior = None
+        if case["pi0"] is not None:        # prior columns in the planner's action order
+            prior = torch.tensor([[fl(case["pi0"][0][ai[a]]) for a in al]], dtype=torch.float64)
+        if key not in PLANNERS or not case.get("decoy"):
+            PLANNERS[key] = EntropyRegularizedPolicyIteration(iterations=case["iterations"], entropy_weight=weight(case, torch),
+                                                              policy_prior=prior)
+        planner = PLANNERS[key]
+        same = None
+        if case.get("decoy"):
+            other, _, _ = make_mdp(case, [[[1.0 - x for x in row] for row in m] for m in R])
+            planner.plan_on(other)
+            first = tables(planner.plan_on(mdp), sl, al)
+        res = planner.plan_on(mdp)
+        pi, q, v = tables(res, sl, al)
+        if case.get("decoy"):
+            same = first == (pi, q, v)
         return {"converged": bool(res.converged), "iterations": int(res.iterations),
-                "pi": [[fj(res.policy[s][a]) for a in al] for s in sl],
-                "q": [[fj(res.actionvaluefunc[s][a]) for a in al] for s in sl],
-                "v": [fj(res.valuefunc[s]) for s in sl],
-                "q_mat_equal_table": bool(all(float(res._qvaluemat[s, a]) == float(res.Q[s][a]) for s in range(nS) for a in range(nA)))}
+                "pi": pi, "q": q, "v": v, "states": [si[s] for s in sl], "actions": [ai[a] for a in al],
+                "views_touched": touched, "repeat_same": same,
+                "q_mat_equal_table": bool(all(float(res._qvaluemat[i, j]) == float(res.Q[s][a])
+                                              for i, s in enumerate(sl) for j, a in enumerate(al)))}
     tf = tens(case["T"], torch)
     rf = tens(case["R"], torch)
-    style = case["lam_style"]
-    if style == "float":
-        w = fl(lam)
-    elif style == "int":
-        w = int(lam)
-    elif style == "tensor1":
-        w = torch.tensor([fl(lam)], dtype=torch.float64)
-    else:
-        w = torch.tensor([fl(x) for x in lam], dtype=torch.float64)
+    if case.get("noncontig"):
+        # same numbers, non-contiguous storage (a permuted view of a permuted copy)
+        tf = tf.permute(2, 0, 1).contiguous().permute(1, 2, 0)
+        rf = rf.permute(2, 1, 0).contiguous().permute(2, 1, 0)
+        assert not tf.is_contiguous() or min(tf.shape) == 1
+    if case.get("requires_grad"):
+        tf.requires_grad = True
     prior = None if case["pi0"] is None else tens(case["pi0"], torch)
-    r = entropy_regularized_policy_iteration(
-        transition_matrix=tf, reward_matrix=rf, discount_rate=fl(case["gamma"]), entropy_weight=w,
-        n_planning_iters=case["n_iters"], policy_prior=prior, initial_policy=None,
-        check_convergence=True, force_nonzero_probabilities=case["force_nonzero"])
+    init = None if case.get("init") is None else tens(case["init"], torch)
+    g = int(fl(case["gamma"])) if case.get("gamma_style") == "int" else fl(case["gamma"])
+    w = weight(case, torch)
+
+    def call():
+        return entropy_regularized_policy_iteration(
+            transition_matrix=tf, reward_matrix=rf, discount_rate=g, entropy_weight=w,
+            n_planning_iters=case["n_iters"], policy_prior=prior, initial_policy=init,
+            check_convergence=True, force_nonzero_probabilities=case["force_nonzero"])
+    same = None
+    if case.get("repeat"):
+        keep = [x.clone() for x in (tf, rf) + ((prior,) if prior is not None else ())]
+        r0 = call()
+        r = call()
+        same = bool(torch.equal(r0.policy, r.policy) and torch.equal(r0.state_values, r.state_values)
+                    and torch.equal(r0.action_values, r.action_values)
+                    and all(torch.equal(a, b) for a, b in zip(keep, (tf, rf) + ((prior,) if prior is not None else ()))))
+    else:
+        r = call()
     return {"converged": bool(r.converged), "iterations": int(r.iterations),
             "pi": mat(r.policy.detach()), "q": mat(r.action_values.detach()),
-            "v": [fj(x) for x in r.state_values.detach().tolist()],
+            "v": [fj(x) for x in r.state_values.detach().tolist()], "repeat_same": same,
             "dtypes": [str(r.policy.dtype), str(r.action_values.dtype), str(r.state_values.dtype)]}
 
 
